@@ -254,6 +254,30 @@ def sweep_section(ctx):
     return s
 
 
+def based_int_section(ctx):
+    from ..pyvc.timetheory import BasedIntTheory
+    from ..contracts import encoder as ce
+    from ..harness import DISCHARGED as _D, FAILED as _F
+    import pvl.grammar as G
+    s = Section("based-integer-decoder-contracts", "smt",
+                rule="decode_non_decimal of PVLDecoder / ODLDecoder / OmniDecoder: the value is int(<sign><digits>, base=int(<radix>)) of the "
+                     "groups of the pattern that matches; Omni takes the sign from the position that is written and refuses both; no "
+                     "KeyError can leave them")
+    t0 = time.time()
+    verify_contracts(s, ce.based_int_contracts(), BasedIntTheory, ["pvl.decoder"], jobs=3)
+    for gname, gcls, res in (("PVL", G.PVLGrammar, ("binary_re", "octal_re", "hex_re")), ("ISIS", G.ISISGrammar, ("binary_re", "octal_re", "hex_re")),
+                             ("ODL", G.ODLGrammar, ("nondecimal_re",)), ("PDS3", G.PDSGrammar, ("nondecimal_re",)),
+                             ("Omni", G.OmniGrammar, ("nondecimal_re",))):
+        for rn in res:
+            groups = set(getattr(gcls, rn).groupindex)
+            s.obl(f"pvl.grammar.{gcls.__name__}.{rn}:defines-the-groups-sign-radix-non_decimal", _D if {"sign", "radix", "non_decimal"} <= groups else _F,
+                  "ground", detail=str(sorted(groups)))
+    s.assumptions += ["int(text, base=b) / int(text): uninterpreted acceptance and value functions (languages: regex obligations based:*)",
+                      "the match groups are symbolic texts; groupdict('') gives '' for a group that did not take part"]
+    s.seconds = time.time() - t0
+    return s
+
+
 def token_sections(ctx, pid):
     from ..pyvc.enctheory import EncTheory
     from ..contracts import encoder as ce
@@ -353,6 +377,8 @@ def sections_for(pid, ctx):
         out.append(decoder_section(ctx))
     if pid in ("C03", "C04"):
         out += lexer_sections(ctx, pid)
+    if pid in ("C03",):
+        out.append(based_int_section(ctx))
     if pid in ("C01", "C02", "C07", "C12", "C17"):
         out += encoder_sections(ctx, pid)
     if pid in ("C14", "C01"):
